@@ -66,7 +66,12 @@ fn rf_check(case: &Case) -> Verdict {
     match r {
         Err(p) if p.contains("Can compare elements") => Verdict::Discard("a NaN reached Min/Max (left the domain)".into()),
         Err(p) => Verdict::fail(format!("C08/readiness_finite|{}|panic", tag(spec)), format!("{}: {p}", spec.show())),
-        Ok(Err((kind, m))) => Verdict::fail(format!("C08/readiness_finite|{}|{kind}", tag(spec)), format!("{}: {m}; input {}", spec.show(), show_rats(&case.xs))),
+        Ok(Err((kind, m))) => {
+            if kind == "nonfinite" && !super::c15::inner_outputs_moderate(spec, &case.xs, false) {
+                return Verdict::Discard("the inner view's outputs leave the moderate range (0 or 1e-9..1e12): outside the wrapper's input domain".into());
+            }
+            Verdict::fail(format!("C08/readiness_finite|{}|{kind}", tag(spec)), format!("{}: {m}; input {}", spec.show(), show_rats(&case.xs)))
+        }
         Ok(Ok((ready, after))) => {
             let mut l = gen::shape_labels(&case.xs, n);
             if ready.is_some() {
